@@ -11,31 +11,40 @@ namespace QM.C15
 section loop
 variable {S G D : Type}
 
-theorem loop_int (P : Prng S G D) (s : S) (glob : G) (n : Nat) :
-    loop P n (.int s) glob = (List.replicate n (P.draw (P.ofSeed s)).1, .int s, glob) := by
-  induction n with
-  | zero => rfl
-  | succ n ih => simp [loop, rep, ih, List.replicate_succ]
-
-theorem loop_gen (P : Prng S G D) (glob : G) (n : Nat) :
-    ∀ g : G, loop P n (.gen g) glob
+theorem loopS_gen (P : Prng S G D) (glob : G) (n : Nat) :
+    ∀ g : G, loopS P n (.gen g) glob
       = ((List.range n).map (fun k => (P.draw (advance P k g)).1), .gen (advance P n g), glob) := by
   induction n with
   | zero => intro g; rfl
   | succ n ih =>
       intro g
-      simp only [loop, rep, ih, List.range_succ_eq_map, List.map_cons, List.map_map]
+      simp only [loopS, rep, ih, List.range_succ_eq_map, List.map_cons, List.map_map]
       rfl
 
-theorem loop_none (P : Prng S G D) (n : Nat) :
-    ∀ glob : G, loop P n .none glob
+theorem loopS_none (P : Prng S G D) (n : Nat) :
+    ∀ glob : G, loopS P n .none glob
       = ((List.range n).map (fun k => (P.draw (advance P k glob)).1), .none, advance P n glob) := by
   induction n with
   | zero => intro g; rfl
   | succ n ih =>
       intro g
-      simp only [loop, rep, ih, List.range_succ_eq_map, List.map_cons, List.map_map]
+      simp only [loopS, rep, ih, List.range_succ_eq_map, List.map_cons, List.map_map]
       rfl
+
+theorem loop_int (P : Prng S G D) (s : S) (glob : G) (n : Nat) :
+    loop P n (.int s) glob
+      = ((List.range n).map (fun k => (P.draw (advance P k (P.ofSeed s))).1), .int s, glob) := by
+  simp [loop, toStream, loopS_gen]
+
+theorem loop_gen (P : Prng S G D) (glob : G) (n : Nat) (g : G) :
+    loop P n (.gen g) glob
+      = ((List.range n).map (fun k => (P.draw (advance P k g)).1), .gen (advance P n g), glob) := by
+  simp [loop, toStream, loopS_gen]
+
+theorem loop_none (P : Prng S G D) (n : Nat) (glob : G) :
+    loop P n .none glob
+      = ((List.range n).map (fun k => (P.draw (advance P k glob)).1), .none, advance P n glob) := by
+  simp [loop, toStream, loopS_none]
 
 end loop
 
